@@ -265,6 +265,12 @@ pub fn random_fit_case<T: Sc>(rng: &mut Rng, thorough: bool, idx: usize) -> FitC
     let mut base = random_state_case::<T>(rng, thorough, idx);
     base.origin = "fit";
     base.history.clear();
+    // one fit in ten (cycled): a basis column nine orders of magnitude below the others (3e-10·x) - the
+    // basis is badly COLUMN-scaled (condition number ~1e9..1e10) but of full rank for the default threshold;
+    // the coefficients returned must still be the least-squares optimum for the returned parameters (round 13)
+    if idx % 10 == 7 && base.recipe.n() >= base.recipe.m() + 2 && base.eps.is_none() {
+        base.recipe.fns.push(FnSpec { kind: Kind::LinTiny, params: vec![] });
+    }
     // starts: near the generating parameters of the data or far away
     let flavour = *rng.pick(&[Flavour::New, Flavour::New, Flavour::Mrhs, Flavour::NewPar, Flavour::MrhsPar]);
     base.flavour = flavour;
